@@ -715,4 +715,138 @@ theorem reachable_life_raw_sufficient (q : Query) (v : Gen.Variant) (bom : BomHa
   rw [h] at this hadm
   exact this hadm
 
+/-! ### no "output buffer must have been too small" panic -/
+
+/-- the withheld bytes that are replayed into the current decoder before the source -/
+def replayBytes : Life → List Nat
+  | .seenUtf8First => [0xEF]
+  | .seenUtf8Second => [0xEF, 0xBB]
+  | .seenUtf16BeFirst => [0xFE]
+  | .seenUtf16LeFirst => [0xFF]
+  | .convertingWithPendingBB => [0xBB]
+  | _ => []
+
+theorem replayBytes_one (l : Life) (fb : Nat) (h : replayOne l = some fb) : replayBytes l = [fb] := by
+  cases l <;> simp [replayOne] at h <;> simp [replayBytes, h]
+
+theorem checkingEnd_ne_panic {F : Fam} (k : Sink) (c : Cur F) (src : List Nat) (last : Bool) (b : Budget)
+    (off : Nat) (pre : List (List Nat × Res × Nat)) (preOut : List Nat) :
+    checkingEnd k c src last b off pre preOut ≠ .panic := by
+  unfold checkingEnd; intro h; cases h
+
+/-- **the replay of withheld bytes does not panic** when the destination is at least as large as
+the matching query's answer: the panic path of `Model.afterOne` / `afterTwo` (the Rust
+`unreachable!("Output buffer must have been too small.")`) needs an `OutputFull` answer of the replay
+call, which an admissible replay call cannot give. (`hrep`: the `OutputFull` clause of
+`Model.Admissible` for the replay call.) -/
+theorem decoder_life_no_panic (q : Query) (v : Gen.Variant) (d : Decoder (famOfVariant v))
+    (hd : LifeInv v d) (src : List Nat) (last : Bool) (b1 b2 : Budget) (cap Q : Nat)
+    (hq : Decoder.maxLen q v (nominalOf v) d src.length = some Q) (hcap : Q ≤ cap)
+    (hfin : d.life ≠ .finished)
+    (hrep : (d.cur.call (sinkOf q) (replayBytes d.life) false b1).res = .outputFull →
+      cap < unitsOfList (sinkOf q) (d.cur.call (sinkOf q) (replayBytes d.life) false b1).out
+        + (d.cur.call (sinkOf q) (replayBytes d.life) false b1).stopNeed) :
+    d.rawCall (sinkOf q) src last b1 b2 ≠ .panic := by
+  have hleaf := rawCall_leaf (sinkOf q) d src last b1 b2
+  generalize d.rawCall (sinkOf q) src last b1 b2 = r at hleaf
+  cases hleaf with
+  | finished h => exact absurd h hfin
+  | idle _ _ => intro h; cases h
+  | wait n life' _ _ _ => intro h; cases h
+  | direct _ => exact checkingEnd_ne_panic _ _ _ _ _ _ _ _
+  | bom8 off _ => exact checkingEnd_ne_panic _ _ _ _ _ _ _ _
+  | bom16 be off _ => exact checkingEnd_ne_panic _ _ _ _ _ _ _ _
+  | one fb hfb =>
+    have hphi := Nat.le_trans (budget_replay q v d _ Q hd (replayOne_withheld _ _ hfb) hq) hcap
+    rw [replayBytes_one _ _ hfb] at hrep
+    have hb1 : ∀ x ∈ [fb], x < 256 := by
+      intro x hx; simp only [List.mem_singleton] at hx; rw [hx]; exact replayOne_lt _ _ hfb
+    have hsl := (cur_call_slack q v d.cur [fb] b1 (src.length + 1) hd.cur hb1).2
+    have e : [fb].length + (src.length + 1) = src.length + 2 := by simp only [List.length_singleton]; omega
+    rw [e] at hsl
+    unfold afterOne
+    generalize d.cur.call (sinkOf q) [fb] false b1 = r1 at hsl hrep ⊢
+    simp only
+    cases hres : r1.res with
+    | inputEmpty => simp only; exact checkingEnd_ne_panic _ _ _ _ _ _ _ _
+    | malformed l a => simp only; intro h; cases h
+    | outputFull =>
+      simp only
+      split
+      · intro h; cases h
+      · exfalso
+        have h1 := hsl hres
+        have h2 := hrep hres
+        omega
+  | two hl =>
+    have hphi := Nat.le_trans (budget_replay q v d _ Q hd (by rw [hl]; simp [withheld]) hq) hcap
+    rw [hl] at hrep
+    have hb1 : ∀ x ∈ [0xEF, 0xBB], x < 256 := by decide
+    have hsl := (cur_call_slack q v d.cur [0xEF, 0xBB] b1 src.length hd.cur hb1).2
+    have e : [0xEF, 0xBB].length + src.length = src.length + 2 := by
+      simp only [List.length_cons, List.length_nil]; omega
+    rw [e] at hsl
+    unfold afterTwo
+    simp only [replayBytes] at hrep
+    generalize d.cur.call (sinkOf q) [0xEF, 0xBB] false b1 = r1 at hsl hrep ⊢
+    simp only
+    cases hres : r1.res with
+    | inputEmpty => simp only; exact checkingEnd_ne_panic _ _ _ _ _ _ _ _
+    | malformed l a => simp only; split <;> (intro h; cases h)
+    | outputFull =>
+      simp only
+      split
+      · intro h; cases h
+      · exfalso
+        have h1 := hsl hres
+        have h2 := hrep hres
+        omega
+
+/-! ### Non-vacuity -/
+
+section demo
+/-- windows-1252 -/
+private def vW : Gen.Variant := .singleByte 19 160 32 96
+private def dW0 : Decoder (famOfVariant vW) := Decoder.new (famOfVariant vW) (nominalOf vW) .sniff
+/-- after `EF`, `BB` in two calls: both withheld -/
+private def dW2 : Decoder (famOfVariant vW) := ⟨.seenUtf8Second, .nominal ()⟩
+
+set_option maxRecDepth 8192 in
+/-- windows-1252, sniffing, `EF BB` withheld: the state is reachable; for one more byte the three
+queries answer 12 / 9 / 4 (the maximum of the UTF-8-after-BOM bound for 1 + 2 bytes, 12 / 6 / 4, and
+the nominal decoder's 9 / 9 / 3); the byte `41` makes the decoder replay `EF BB` (two characters) and decode `A`:
+three UTF-16 units, admissible in a 4-unit destination, `InputEmpty`. -/
+example :
+    DReach vW .sniff dW2 ∧
+    Decoder.maxLen .utf8 vW (nominalOf vW) dW2 1 = some 12 ∧
+    Decoder.maxLen .utf8NoRepl vW (nominalOf vW) dW2 1 = some 9 ∧
+    Decoder.maxLen .utf16 vW (nominalOf vW) dW2 1 = some 4 ∧
+    dW2.rawCall .utf16 [0x41] false .unlimited .unlimited =
+      .ok .inputEmpty 1 [0xEF, 0xBB, 0x41] ⟨.converting, .nominal ()⟩
+        [([0xEF, 0xBB], .inputEmpty, 0), ([0x41], .inputEmpty, 0)] ∧
+    InnerAdmissible .utf16 4 [([0xEF, 0xBB], .inputEmpty, 0), ([0x41], .inputEmpty, 0)] := by
+  have h1 : dW0.rawCall .utf16 [0xEF] false .unlimited .unlimited =
+      .ok .inputEmpty 1 [] ⟨.seenUtf8First, .nominal ()⟩ [] := rfl
+  have h2 : (⟨.seenUtf8First, .nominal ()⟩ : Decoder (famOfVariant vW)).rawCall .utf16 [0xBB] false .unlimited .unlimited =
+      .ok .inputEmpty 1 [] dW2 [] := rfl
+  refine ⟨?_, by decide +kernel, by decide +kernel, by decide +kernel, rfl, ?_⟩
+  · exact DReach.call .utf16 _ [0xBB] false .unlimited .unlimited _ _ _ _ _
+      (DReach.call .utf16 dW0 [0xEF] false .unlimited .unlimited _ _ _ _ _ DReach.new (by decide) h1) (by decide) h2
+  · refine ⟨⟨by decide, (by intro h; cases h), (by intro l a h; cases h)⟩,
+      ⟨by decide, (by intro h; cases h), (by intro l a h; cases h)⟩, trivial⟩
+
+set_option maxRecDepth 8192 in
+/-- the bound is tight for the replay: in a 2-unit destination (the documented minimum) the replay of
+`EF BB` may stop with `OutputFull` after `EF`, leaving `BB` pending (finding F2's repaired path) —
+admissible for 2 units, not for the 4 the query asks for. -/
+example :
+    dW2.rawCall .utf16 [0x41] false (.full 1) .unlimited =
+      .ok .outputFull 0 [0xEF] ⟨.convertingWithPendingBB, .nominal ()⟩ [([0xEF], .outputFull, 1)] ∧
+    InnerAdmissible .utf16 1 [([0xEF], .outputFull, 1)] ∧ ¬ InnerAdmissible .utf16 4 [([0xEF], .outputFull, 1)] := by
+  refine ⟨rfl, ⟨⟨by decide, (by intro _; decide), (by intro l a h; cases h)⟩, trivial⟩, ?_⟩
+  intro h
+  have := h.1.2.1 rfl
+  revert this; decide
+end demo
+
 end EncodingRs.Thm.C07
